@@ -61,6 +61,7 @@ type sqlDoc struct {
 	Tables  []*sqlTable
 	Indexes []*sqlIndex
 	Cons    map[string]bool
+	Spice   string
 }
 
 // type spellings per dialect, restricted to what the importer goldens
@@ -86,8 +87,9 @@ var (
 )
 
 type sqlGen struct {
-	r *fw.Rand
-	d *sqlDoc
+	r     *fw.Rand
+	d     *sqlDoc
+	spice map[string]bool
 }
 
 func (g *sqlGen) con(c string) { g.d.Cons[c] = true }
@@ -108,8 +110,13 @@ func (g *sqlGen) colType(keyable bool) sqlType {
 
 func genSQL(r *fw.Rand, dialect string, thorough bool) *sqlDoc {
 	d := &sqlDoc{Dialect: dialect, Cons: map[string]bool{}}
-	g := &sqlGen{r: r, d: d}
+	g := &sqlGen{r: r, d: d, spice: map[string]bool{}}
 	g.con("dialect-" + dialect)
+	if r.Chance(1, 3) {
+		d.Spice = r.Pick([]string{"array-not-null", "backquoted-native-name"})
+		g.spice[d.Spice] = true
+		g.con("spice-" + d.Spice)
+	}
 	if r.Chance(1, 3) {
 		d.DB = r.Pick([]string{"bank", "shop_db", "core1"})
 		g.con("create-database")
@@ -139,8 +146,14 @@ func genSQL(r *fw.Rand, dialect string, thorough bool) *sqlDoc {
 					g.con("column-name-keyword")
 				}
 				if (dialect == "spannerSQL" || dialect == "mysql") && r.Chance(1, 8) {
-					quoted = true
-					g.con("column-name-backquoted")
+					if _, renamed := sqlFieldKey(n); !renamed {
+						quoted = true
+						g.con("column-name-backquoted")
+					}
+				}
+				if (dialect == "spannerSQL" || dialect == "mysql") && g.spice["backquoted-native-name"] && r.Chance(1, 3) {
+					n, quoted = r.Pick(sqlOddCols), true
+					g.con("column-name-backquoted-native-type")
 				}
 				if !used[strings.ToLower(n)] {
 					used[strings.ToLower(n)] = true
@@ -216,6 +229,12 @@ func genSQL(r *fw.Rand, dialect string, thorough bool) *sqlDoc {
 			if r.Chance(1, 10) && (dialect == "spannerSQL" || dialect == "postgres" || dialect == "bigquery") && !strings.Contains(c.T.Spell, "MAX") {
 				c.Array = true
 				g.con("array-column")
+				if c.NotNull && !g.spice["array-not-null"] {
+					c.NotNull = false
+				}
+				if c.NotNull {
+					g.con("array-column-not-null")
+				}
 			}
 			if !c.Array && r.Chance(1, 10) && (dialect == "postgres" || dialect == "mysql") {
 				switch c.T.Prim {
@@ -452,11 +471,11 @@ func (d *sqlDoc) indexDDL(sb *strings.Builder, table string, r *fw.Rand) {
 
 type sqlChecker struct {
 	*checker
-	d                *sqlDoc
-	af               *appFacts
-	nTables, nCols   int
-	nKeys, nIndexes  int
-	nestedFollowed   int
+	d               *sqlDoc
+	af              *appFacts
+	nTables, nCols  int
+	nKeys, nIndexes int
+	nestedFollowed  int
 }
 
 func attrStrings(a *sysl.Attribute, out *[]string) {
@@ -546,7 +565,7 @@ func (x *sqlChecker) checkCol(where string, t *sqlTable, def *tyDef, c *sqlCol) 
 	w := c.Name
 	// optionality
 	if got.Opt != !c.NotNull {
-		x.fail("column-optionality", boolStr(c.NotNull, "not-null", "nullable")+boolStr(t.isPK(c.Name), ",pk", ""), fmt.Sprintf("%s.%s: NOT NULL=%v, compiled %s", where, w, c.NotNull, got))
+		x.fail("column-optionality", boolStr(c.NotNull, "not-null", "nullable")+boolStr(t.isPK(c.Name), ",pk", "")+boolStr(c.Array, ",array", ""), fmt.Sprintf("%s.%s: NOT NULL=%v, compiled %s", where, w, c.NotNull, got))
 	}
 	if got.Seq != c.Array {
 		x.fail("column-arrayness", boolStr(c.Array, "array", "scalar"), fmt.Sprintf("%s.%s: array=%v, compiled %s", where, w, c.Array, got))
